@@ -227,7 +227,7 @@ func genC01(g *Gen, idx int) *Plan {
 func genC03(g *Gen, idx int) *Plan {
 	cfg := g.BaseCfg()
 	cfg.Sched = g.Sched("gateway/handler1.go", "gateway/subscribe_transaction.go")
-	cfg.Predefined = g.Predef([]string{"c1"})
+	cfg.Predefined = g.PredefWithFilters([]string{"c1"})
 	p := &Plan{Family: "C03-gw", Cfg: cfg}
 	sg := &sessGen{g: g, cid: "c1"}
 	sg.gap(5, 200)
